@@ -24,6 +24,7 @@ TABLE = dict(CONFIG["timezones"])
 CURRENCY_CODES = {k.upper() for k in CONFIG["currencies"]} | {v["code"].upper() for v in CONFIG["currencies"].values()}
 # zone names the zone syntax (?P<timezone_1>[A-Z]{2,4}) can express and that are not also currency codes (TMT, WST)
 ZONES = sorted(z for z in TABLE if re.fullmatch(r"[A-Z]{2,4}", z) and z not in CURRENCY_CODES)
+KNOWN_BOTH_ZONED = "C11-both-operands-zoned-on-one-line"
 UNITS = {"second": 1, "seconds": 1, "minute": 60, "minutes": 60, "hour": 3600, "hours": 3600, "day": 86400, "days": 86400,
          "week": 604800, "weeks": 604800}
 # a unit word that is also a zone name once upper-cased would be read as a zone (none today)
@@ -252,17 +253,43 @@ def generate(rng, tier):
         t1, w1 = time_text(rng)
         t2, w2 = time_text(rng)
         cases.append(mk("%s to %s" % (t1, t2), pre, dflt, "diff", w=w1, w2=w2, diff=abs(w1 - w2)))
+    # --- T1 to T2 with a zone on one or both operands (written on the line or carried by a variable): the difference of
+    #     the two INSTANTS, each operand read in its own zone (or the default zone)
+    for _ in range(40 if quick else 500):
+        pre, dflt = default_zone(rng, 0.25)
+        t1, w1 = time_text(rng)
+        t2, w2 = time_text(rng)
+        z1 = zone(rng) if rng.random() < 0.7 else None
+        z2 = zone(rng) if (z1 is None or rng.random() < 0.6) else None
+        o1 = z1[2] if z1 else dflt[1]
+        o2 = z2[2] if z2 else dflt[1]
+        a = "%s%s" % (t1, (" " + z1[0]) if z1 else "")
+        b = "%s%s" % (t2, (" " + z2[0]) if z2 else "")
+        diff = abs((w1 - 60 * o1) - (w2 - 60 * o2))
+        if rng.random() < 0.3:
+            text = "a = %s\nb = %s\na to b" % (a, b)
+        else:
+            text = "%s to %s" % (a, b)
+        # KNOWN FINDING C11-K1: both operands carry a zone ON THE LINE (see known_class)
+        cls = [KNOWN_BOTH_ZONED] if (z1 and z2 and "\n" not in text) else []
+        cases.append(mk(text, pre, dflt, "diff-zones", w=w1, w2=w2, diff=diff, classes=cls))
+    for text, diff in (("15:00 to 22:00 CET", 6 * 3600), ("15:00 EST to 22:00", 2 * 3600), ("a = 15:00 EST\nb = 22:00 CET\na to b", 3600),
+                       ("a = 10:00 GMT+3\nb = 10:00 GMT-3\na to b", 6 * 3600), ("a = 23:00 EST\nb = 1:00 EST\na to b", 22 * 3600),
+                       ("a = 10:00 EST\na to 12:00 CET", 4 * 3600)):
+        cases.append(mk(text, [], ("UTC", 0), "diff-zones", diff=diff, classes=[]))
+    cases.append(mk("10:00 EST to 12:00 CET", [], ("UTC", 0), "diff-zones", diff=4 * 3600, classes=[KNOWN_BOTH_ZONED]))
     return cases
 
 
 def the_time(rec):
+    """the value of the LAST line (earlier lines bind variables)"""
     lines = last_lines(rec)
-    if not lines or len(lines) != 1 or lines[0] is None:
+    if not lines or lines[-1] is None:
         return None, lines
-    k, v = line_value(lines[0])
+    k, v = line_value(lines[-1])
     if k != "item":
         return None, lines
-    return v, lines
+    return v, lines[-1:]
 
 
 def nontrivial(c, rec):
@@ -329,8 +356,15 @@ def spec_check(c, rec, header):
 
 
 def known_class(c, rec, verdict, known):
+    """C11-K1: `T1 Z1 to T2 Z2` written on one line - the rule pass joins only the first time with its zone before
+    to_duration fires, the second zone is left over and the line fails with 'No more token'"""
+    if KNOWN_BOTH_ZONED in {f["class"] for f in known} and KNOWN_BOTH_ZONED in c["meta"].get("classes", []):
+        lines = last_lines(rec)
+        if lines and lines[-1] is not None and "err" in lines[-1]:
+            return KNOWN_BOTH_ZONED
     return None
 
 
 def witness_fails(f, wc, rec, header):
-    return False
+    lines = last_lines(rec)
+    return bool(lines) and lines[-1] is not None and lines[-1].get("err") == f["observed"].get("err")
